@@ -11,6 +11,21 @@ REPO = os.environ.get('IMBV_REPO', '/repo')
 VERIF = os.path.dirname(os.path.dirname(os.path.abspath(__file__)))
 CFACTS = os.path.join(VERIF, 'build', 'cfacts')
 CACHE_ROOT = os.path.join(VERIF, '.factcache')
+
+
+def _read_extractors():
+    out = {}
+    d = os.path.join(VERIF, 'imbv')
+    for f in sorted(os.listdir(d)):
+        if f == 'build.py' or f.startswith('asm'):
+            try:
+                out[f] = open(os.path.join(d, f), 'rb').read()
+            except OSError:
+                pass
+    return out
+
+
+_EXTRACTOR_SRC = _read_extractors()     # as loaded: cache keys name the code version that computes the facts
 NPROC = min(16, os.cpu_count() or 4)
 
 
@@ -57,9 +72,9 @@ def tree_key():
             h.update(p.encode() + b'\0' + str(len(data)).encode() + b'\0')
             h.update(data)
         # the extractors are inputs too
-        for p in [CFACTS] + sorted(
-                os.path.join(VERIF, 'imbv', f) for f in os.listdir(os.path.join(VERIF, 'imbv'))
-                if f in ('build.py',) or f.startswith('asm')):
+        for f in sorted(_EXTRACTOR_SRC):
+            h.update(_EXTRACTOR_SRC[f])
+        for p in [CFACTS]:
             if os.path.isdir(p):
                 for f in sorted(os.listdir(p)):
                     if f.endswith('.py'):
@@ -90,9 +105,8 @@ def asm_key():
                 continue
             h.update(rel.encode() + b'\0' + str(len(data)).encode() + b'\0')
             h.update(data)
-        for f in sorted(os.listdir(os.path.join(VERIF, 'imbv'))):
-            if f == 'build.py' or f.startswith('asm'):
-                h.update(open(os.path.join(VERIF, 'imbv', f), 'rb').read())
+        for f in sorted(_EXTRACTOR_SRC):
+            h.update(_EXTRACTOR_SRC[f])
         _asm_key = 'asm-' + h.hexdigest()[:28]
     return _asm_key
 
